@@ -5,5 +5,5 @@ SPECIFICATION MCSpec
 INVARIANTS TypeOK PassedMeansRanAndPassed FailedMeansRanAndFailed XfailInverts SkipNotRun OnlySelectedRun
            RanOnlyIfJudgedOrRunning JudgedIsPrefix AllSelectedJudged CountersMatchVerdicts CountsAddUp
            PrintedMatchesVerdicts ExitIffFailure NotDoneNoExit
-PROPERTIES Progress Termination
+PROPERTIES Progress
 CHECK_DEADLOCK TRUE
